@@ -112,7 +112,8 @@ def classify_store(ctx, f, nd, tgt, val, K, mask_in_scope):
             return 'bad', '(iii) row element %s is neither the successor nor -1' % show(elt)
         if any(obtain_latters_of(x) is not None for x in walk_term(v)):
             return 'bad', '(iii) the row is assembled as %s: not a single position-preserving pass over obtain_latters(u, K)' % show(v)[:120]
-        return 'undecided', 'whole-row store of %s' % show(val)[:100]
+        return 'bad', ('(iii) a whole accessor row is overwritten with %s, which is not a position-preserving pass over '
+                       'obtain_latters of that vertex: column j need not hold the j-th successor' % show(val)[:80])
     if tgt[0] == 'sub' and tgt[1][0] == 'sub' and ctx.kinds.kind(tgt[1][1], f) == 'ACC':
         u, j, w = tgt[1][2], tgt[2], val
         # (i) enumerate(obtain_latters(u, K))
@@ -605,7 +606,26 @@ def r_arb(ctx):
                       'an edge is added to the cycle-search graph without requiring its source to have out-degree 1: '
                       'a cycle through a branching vertex would be removed', inputs='masks with cycles through branching vertices')
         if not adds:
-            raise AnalysisError("rule R-ARB lost its anchor: no add_edge call in the pruning loop")
+            # the search graph may be built outside the loop (then it must still be rebuilt: see freshness below)
+            adds_any = [(n2, c2) for n2, c2, callee, q in ctx.calls()[f.fq]
+                        if isinstance(c2.func, ast.Attribute) and c2.func.attr == 'add_edge']
+            if not adds_any:
+                raise AnalysisError("rule R-ARB lost its anchor: no add_edge call in connect_coding_graph")
+        # freshness: the search graph is a view derived from the accessor; no accessor store may reach the next
+        # find_cycle call without the graph being rebuilt
+        garg = c.args[0] if c.args else None
+        if isinstance(garg, ast.Name):
+            gdefs = {d.node for d in f.defs if d.name == garg.id and d.kind == 'assign'}
+            stale = []
+            for snd, sd, stg, sval in acc_stores(ctx, f):
+                if snd.id in body and nd.id in f.reachable_from(snd.id, avoid=gdefs):
+                    stale.append(snd)
+            run.check(not stale, 'R-ARB', f, 'search-graph-rebuilt-after-stores#%d' % (i + 1), nd.lineno,
+                      'every arc removal is followed by a rebuild of the cycle-search graph before the next search',
+                      "the accessor store at line %s reaches the next find_cycle call without the search graph being rebuilt "
+                      "from the accessor: vertices that drop to out-degree 1 during the cascade never enter it, so an "
+                      "information-free cycle created by the pruning itself survives"
+                      % (stale[0].lineno if stale else ''), inputs='masks where removing one cycle creates another')
 
 
 def depends_on(f, atom, cyc):
@@ -624,6 +644,29 @@ def depends_on(f, atom, cyc):
 
 
 # ----------------------------------------------------------------------------------------------
+def legality_form(t):
+    """'full' for ones ⊆ successors in a recognised form, 'partial' when only constant-subscripted elements of the ones
+    are compared, None otherwise"""
+    def is_ones(x):
+        return x[0] == 'call' and x[1][0] == 'attr' and x[1][2] == 'tolist' or \
+            (x[0] == 'sub' and is_call(x[1], 'numpy.where', 'numpy.nonzero'))
+    # list(set(ones) | set(ref)) != ref   /  set(ones) <= set(ref)  / set(ones) - set(ref)
+    txt = show(t)
+    for x in walk_term(t):
+        if x[0] == 'bin' and x[1] in ('|', '-') and is_call(x[2], 'builtins.set') and is_call(x[3], 'builtins.set'):
+            return 'full'
+        if x[0] == 'cmp' and x[1] in ('<=', '<') and is_call(x[2], 'builtins.set') and is_call(x[3], 'builtins.set'):
+            return 'full'
+        if x[0] == 'call' and x[1][0] == 'attr' and x[1][2] in ('issubset', 'issuperset', 'difference'):
+            return 'full'
+        if is_call(x, 'builtins.all', 'builtins.any') and x[2] and x[2][0][0] == 'comp':
+            return 'full'
+    ones_subs = [x for x in walk_term(t) if x[0] == 'sub' and x[2][0] == 'c' and is_ones(x[1])]
+    if ones_subs:
+        return 'partial'
+    return None
+
+
 def r_legal(ctx):
     run = ctx.run
     run.rule('R-LEGAL', "adjacency_matrix_to_accessor: the row store is dominated by the legality test (the row's ones "
@@ -640,6 +683,15 @@ def r_legal(ctx):
             mentions_row = any(is_call(x, 'numpy.where', 'numpy.nonzero', 'numpy.flatnonzero') for x in walk_term(t))
             if not (mentions_ref and mentions_row):
                 continue
+            form = legality_form(t)
+            if form == 'partial':
+                run.refute('R-LEGAL', f, 'legality-test-covers-every-one#%d' % (i + 1), f.nodes[tid].lineno,
+                           "the legality test %s examines a single element of the row's ones (constant subscript): an "
+                           "illegal arc elsewhere in the row is silently dropped instead of raising ValueError"
+                           % show(t)[:120], inputs='matrices with an illegal arc that is not the examined element')
+            elif form is None:
+                run.undecided('R-LEGAL', f, 'legality-test-covers-every-one#%d' % (i + 1), f.nodes[tid].lineno,
+                              'legality test form not recognised: %s' % show(t)[:100])
             # the opposite arm raises ValueError
             for r in f.stmts(ast.Raise):
                 for test2, pol2, tid2 in r.conds:
@@ -680,6 +732,31 @@ def r_bfs(ctx):
         run.check(bool(front and rebind), 'R-BFS', f, 'depth-loop#%d:frontier-rebound' % (i + 1), nd.lineno,
                   'the frontier is replaced by the new level each round',
                   'the frontier of the breadth-first search is not rebound inside the level loop', inputs='depth >= 2')
+        # every frontier element is expanded: the statement that extends the level is conditioned on nothing but
+        # "the vertex has an entry" (latter-map arm)
+        for x in f.nodes:
+            if x.id in body and x.kind == 'stmt' and len(x.loops) >= 2:
+                ext = False
+                if isinstance(x.stmt, ast.AugAssign) and isinstance(x.stmt.op, ast.Add):
+                    ext = True
+                if isinstance(x.stmt, ast.Expr) and isinstance(x.stmt.value, ast.Call) and \
+                        isinstance(x.stmt.value.func, ast.Attribute) and x.stmt.value.func.attr in ('append', 'extend'):
+                    ext = True
+                if not ext:
+                    continue
+                extra = []
+                for atom, pol in ctx.conds(f, x):
+                    cmps = [y for y in walk_term(atom) if y[0] == 'cmp']
+                    if cmps and all(y[1] in ('is', 'is not') and y[3] == ('c', None) for y in cmps):
+                        continue            # accessor is not None / latter_map is not None (alone or combined)
+                    if atom[0] == 'cmp' and atom[1] == 'in' and pol and atom[3] == ('v', 'latter_map', 'P'):
+                        continue
+                    extra.append((show(atom)[:50], pol))
+                run.check(not extra, 'R-BFS', f, 'depth-loop#%d:every-frontier-element-expanded' % (i + 1), x.lineno,
+                          'the level is extended for every frontier element',
+                          'the level is extended only when %s: repeated frontier vertices are not expanded once per '
+                          'occurrence, so the result is not the multiset of walk end points and the two representations '
+                          'disagree' % extra, inputs='depths at which two walks meet in one vertex')
         # returned value is the frontier
     rets = [r for r in f.stmts(ast.Return)]
     ok = False
@@ -690,3 +767,104 @@ def r_bfs(ctx):
             ok = True
     run.check(ok, 'R-BFS', f, 'returns-frontier', rets[0].lineno if rets else f.node.lineno,
               'the final frontier is returned', 'obtain_leaf_vertices does not return the final frontier', nontrivial=False)
+
+
+# ----------------------------------------------------------------------------------------------
+def r_cascade(ctx):
+    """threshold-1 cascade: arcs into removed vertices are cleared at the right predecessors"""
+    run = ctx.run
+    run.rule('R-CASCADE', "threshold-1 cascade of connect_coding_graph: every work list of (predecessor, target) pairs is "
+                          "[(i, X) for i in obtain_formers(X, K)] with the same X on both sides; the pair (u, w) clears "
+                          "ACC[u, w % 4]; predecessors of u are enqueued exactly when u lost its last arc")
+    f = ctx.p.func('dsw.spiderweb.connect_coding_graph')
+    K = find_k_term(f)
+    n = 0
+    seen = set()
+    for nd, s in ctx.all_subterms(f):
+        if s[0] == 'comp' and s[1] == 'list' and len(s[3]) == 1 and s[2][0] == 'tuple' and len(s[2]) == 3 and s not in seen:
+            it, conds = s[3][0]
+            if not (call_name(it) and call_name(it).endswith('.obtain_formers')):
+                continue
+            seen.add(s)
+            n += 1
+            x_arg = call_arg(it, 0, 'current')
+            first, second = s[2][1], s[2][2]
+            ok = first[0] == 'iter' and first[1] == it and second == x_arg and not conds
+            run.check(ok, 'R-CASCADE', f, 'pairs#%d:(predecessor-of-X, X)' % n, nd.lineno,
+                      'pairs are (i, X) for i in obtain_formers(X, K)',
+                      "the cascade enqueues pairs (%s, %s) for i in obtain_formers(%s, ...): the target recorded in the pair "
+                      "must be the vertex whose predecessors are enumerated, otherwise arcs into a vertex that lost all its "
+                      "arcs are left in the graph" % (show(first)[:30], show(second)[:40], show(x_arg)[:40]),
+                      inputs='masks with a chain of two or more out-degree-1 vertices feeding an information-free cycle')
+            if K is not None:
+                run.check(call_arg(it, 1, 'observed_length') == K, 'R-CASCADE', f, 'pairs#%d:observed-length' % n, nd.lineno,
+                          'obtain_formers receives the observed length', 'obtain_formers receives %s'
+                          % show(call_arg(it, 1, 'observed_length')), nontrivial=False)
+    run.floor('R-CASCADE', 'pair lists in the cascade', n, 2)
+    # the store clears ACC[u, w % 4] for the iterated pair (u, w)
+    m = 0
+    for nd, d, tg, val in acc_stores(ctx, f):
+        if val != ('c', -1) or tg[0] != 'sub' or tg[1][0] != 'sub':
+            continue
+        u, col = tg[1][2], tg[2]
+        if not (col[0] == 'bin' and col[1] == '%'):
+            continue
+        m += 1
+        w = col[2]
+        ok = col[3] == ('c', 4) and u[0] == 'item' and w[0] == 'item' and u[1] == w[1] and u[2] == 0 and w[2] == 1
+        run.check(ok, 'R-CASCADE', f, 'clear#%d:ACC[u, w %% 4]' % m, nd.lineno, 'the pair (u, w) clears column w % 4 of row u',
+                  'the cascade clears %s for the pair: required ACC[u, w %% 4] with (u, w) the iterated pair' % show(tg)[:80],
+                  inputs='every cascade step')
+        # enqueue under "row became empty"
+    run.floor('R-CASCADE', 'cascade clears', m, 1)
+    k = 0
+    for nd in f.nodes:
+        for d in nd.defs:
+            if d.kind == 'aug' and d.value is not None and isinstance(nd.stmt, ast.AugAssign) and nd.loops:
+                t = f.term(d.value, nd)
+                if t[0] == 'comp' and call_name(t[3][0][0]) and call_name(t[3][0][0]).endswith('.obtain_formers'):
+                    k += 1
+                    okc = False
+                    for atom, pol in ctx.conds(f, nd):
+                        for x in ([atom] if atom[0] == 'cmp' else list(atom[2:]) if atom[0] == 'bool' else []):
+                            if x[0] == 'cmp' and x[1] == '==' and x[3] == ('c', 0) and pol:
+                                okc = True
+                    run.check(okc, 'R-CASCADE', f, 'enqueue#%d:only-when-row-emptied' % k, nd.lineno,
+                              'predecessors are enqueued when the row has no live arc left',
+                              'predecessors are enqueued without the test that the vertex just lost its last arc',
+                              inputs='vertices that keep another arc')
+
+
+def r_useless_kept(ctx):
+    """remove_useless: a successor is kept only if it is itself a surviving key"""
+    run = ctx.run
+    run.rule('R-KEEP', "remove_useless keeps a successor w of a kept vertex only if w is itself a key that meets the "
+                       "threshold (member of the saved list / of the map and not of the removed list)")
+    g = ctx.p.func('dsw.graphized.remove_useless')
+    n = 0
+    for nd in g.nodes:
+        if not (nd.kind == 'stmt' and isinstance(nd.stmt, ast.Expr) and isinstance(nd.stmt.value, ast.Call) and
+                isinstance(nd.stmt.value.func, ast.Attribute) and nd.stmt.value.func.attr == 'append' and len(nd.loops) >= 3):
+            continue
+        t = g.term(nd.stmt.value, nd)
+        arg = t[2][0] if t[2] else None
+        if arg is None or arg[0] != 'iter':
+            continue
+        n += 1
+        pos_in = [a for a, pol in ctx.conds(g, nd) if pol and a[0] == 'cmp' and a[1] == 'in' and a[2] == arg]
+        # a positive membership in a collection of surviving keys: the saved list (appended under "not removed"), the
+        # latter map itself, or its keys()
+        ok = False
+        for a in pos_in:
+            c = a[3]
+            if c[0] == 'v' and (c[1] == 'latter_map' or any(d.kind == 'mutate' for d in g.defs if d.name == c[1])):
+                ok = True
+            if c[0] == 'call' and c[1][0] == 'attr' and c[1][2] == 'keys':
+                ok = True
+        run.check(ok, 'R-KEEP', g, 'kept-successor-is-a-surviving-key#%d' % n, nd.lineno,
+                  'a kept successor is tested to be a surviving key',
+                  "remove_useless keeps successor %s without testing that it is itself a key meeting the threshold (only "
+                  "'not in the removed list' is tested): a successor that is not a key at all - a vertex without arcs - "
+                  "is kept, so the result differs from connect_coding_graph" % show(arg)[:40],
+                  inputs='latter maps naming a successor that has no key, e.g. accessor_to_latter_map(connect_valid_graph(mask))')
+    run.floor('R-KEEP', 'kept-successor appends in remove_useless', n, 1)
